@@ -177,6 +177,24 @@ def xopen_cells(start_id):
     return cells
 
 
+def writeop_cells(start_id):
+    """Every write-class request type held inside its backend call on directory a, beside a second write-class and a
+    read-class request on the same directory through another fid (and the reverse order): the quick tier samples the
+    request type of an ordinary cell, these cells make sure each type (Tlink with a target fid of its own included)
+    is seen excluding its directory's other calls."""
+    cells = []
+    cid = start_id
+    for op, hold in sorted(WRITE_OPS.items()):
+        a = {"p": "write", "n": 2, "e": 0, "op": op, "k": "", "hold": hold, "holdidx": 1, "i": 3}
+        for b in ({"p": "write", "n": 2, "e": 0, "op": "mkdir" if op != "mkdir" else "symlink", "k": "",
+                   "hold": "Mkdir" if op != "mkdir" else "Symlink", "holdidx": 1, "i": 3},
+                  {"p": "read", "n": 2, "e": 0, "op": "getattr", "k": "", "hold": "GetAttr", "holdidx": 1, "i": 3}):
+            for x, y in ((a, b), (b, a)):
+                cid += 1
+                cells.append({"id": cid, "a": dict(x), "b": dict(y), "cross": cid % 2 == 0})
+    return cells
+
+
 def run(prop, tier, seed, rule):
     t0 = time.time()
     verdict = vlib.Verdict(prop)
@@ -221,6 +239,7 @@ def run(prop, tier, seed, rule):
         cells += samefid_cells(max(c["id"] for c in cells))
         cells += triple_cells(max(c["id"] for c in cells), 4 if tier == "quick" else 16)
         cells += xopen_cells(max(c["id"] for c in cells))
+        cells += writeop_cells(max(c["id"] for c in cells))
         cfile = os.path.join(s, "cells.json")
         json.dump(cells, open(cfile, "w"))
         results, traces = run_pairs(s, cfile, "120ms")
